@@ -77,6 +77,8 @@ def Abs.meaning (a : Abs) (id : Nat) : Abs :=
   else if id = 8024 ∧ a.wD = true then { a with hD := true, wD := false }
   else a
 
+/-- 224000 / 225000 forget the meaning node: the markers that follow need the 008023 / 008024 of THEIR definition (the
+    pass keeps the old node; a marker attached to its own meaning node is an attribute cycle, RecursionError) -/
 def Abs.op (a : Abs) (id : Nat) : Option Abs :=
   let code := id / 1000
   let y := id % 1000
@@ -85,9 +87,9 @@ def Abs.op (a : Abs) (id : Nat) : Option Abs :=
   else if code = 222 then (if y = 0 then some { a with w := true, qN := false, qW := true, qP := false } else none)
   else if code = 223 ∨ code = 232 then (if y = 0 then some { a with w := false } else some a.marker)
   else if code = 224 then
-    (if y = 0 then some { a with w := false, w1 := true } else if a.h1 then some a.marker else none)
+    (if y = 0 then some { a with w := false, w1 := true, h1 := false } else if a.h1 then some a.marker else none)
   else if code = 225 then
-    (if y = 0 then some { a with w := false, wD := true } else if a.hD then some a.marker else none)
+    (if y = 0 then some { a with w := false, wD := true, hD := false } else if a.hD then some a.marker else none)
   else if code = 235 then some { a with w := false }
   else none
 
